@@ -189,11 +189,10 @@ func (mt *MarkdownTable) emitRow(
 		return fmt.Errorf("structural bug, columnCount %d but %d cells", columnCount, max)
 	}
 	// Game-plan:
-	// 1. repeatedly print all-but-last available column with trailing separator
-	// 2. print last column, no separator
-	// 3. if too few columns in this row, repeatedly add leading separator and extra column
+	// 1. print each available column; the last is followed by the right bar, the others by the center bar
+	// 2. if too few columns in this row, repeatedly add an extra column
 	// if too many columns in this row, should have errored out above
-	// if only one column, the first repeated print should be skipped
+	// if there are no columns in this row, everything is an extra column
 	//
 	// For alignment, note that escaping will completely throw things off.  That's okay.
 	// We don't align right for escaped content.  We're after "close enough to not be jarring".
@@ -208,15 +207,15 @@ func (mt *MarkdownTable) emitRow(
 	if _, err := io.WriteString(w, barLeft); err != nil {
 		return err
 	}
-	for i = 0; i < max-1; i++ {
-		if _, err := fmt.Fprint(w, mt.mdPaddedCellEscape(cells, widths, alignments, i), barCenter); err != nil {
+	for i = 0; i < max; i++ {
+		bar := barCenter
+		if i == max-1 {
+			bar = barRight
+		}
+		if _, err := fmt.Fprint(w, mt.mdPaddedCellEscape(cells, widths, alignments, i), bar); err != nil {
 			return err
 		}
 	}
-	if _, err := fmt.Fprint(w, mt.mdPaddedCellEscape(cells, widths, alignments, i), barRight); err != nil {
-		return err
-	}
-	i++
 	for ; i < columnCount; i++ {
 		// these are the extra columns, always have one whitespace before bar
 		if _, err := io.WriteString(w, " |"); err != nil {
